@@ -114,14 +114,23 @@ def atomic(ctx):
 
 
 def little_endian(ctx):
+    """typed accessors against the byte store, by bit provenance: the reader's value has byte i of the N/8 bytes read at
+    the caller's address in bits 8i..8i+7 and zeroes above; the writer hands the byte store N/8 bytes at the caller's
+    address, byte i being bits 8i..8i+7 of the value. Independent of which conversions spell it."""
     ck, facts, R = ctx.check, ctx.facts, ctx.roles
     pr = P.HandlerPrims(facts, R)
     ADDR = A.W(("address",), 64)
     n = 0
+
+    def icpt(I, path, frame, t, name, args):
+        if name == R.mem_read_bytes and A.is_int(args[2]) and args[2][1] <= 16:
+            path.events.append(("mem_read", "bytes", args[1], args[2], None))
+            return [(A.OK(("agg", "array", None, tuple(A.W(("mbyte", i), 8) for i in range(args[2][1])))), path)]
+        return pr.intercept(I, path, frame, t, name, args)
     for bits in (8, 16, 32, 64, 128):
         # ---- reader
         body = facts.bodies[R.mem_read[bits]]
-        I = A.Interp(facts, intercept=pr.intercept)
+        I = A.Interp(facts, intercept=icpt)
         outs = list(I.run(body, [P.self_ref(False), ADDR], A.Path()))
         inst = "api=mem_read_%d" % bits
         where = "%s:%d" % (body["span"][0], body["span"][1])
@@ -139,15 +148,17 @@ def little_endian(ctx):
             ln = I.decide(o.path, rd[0][3])
             if ln != bits // 8:
                 bad = bad or "reads %s bytes, expected %d" % (ln, bits // 8)
+                continue
             v = o.value[3][0]
-            if bits > 8:
-                names = term_calls(v)
-                want = "core::num::<impl u%d>::from_le_bytes" % bits
-                if want not in names:
-                    bad = bad or "value not built with u%d::from_le_bytes (%s)" % (bits, sorted(names)[:3])
-            else:
-                # byte 0 of the buffer
-                pass
+            bv = A.bitvec(v, o.path)
+            w = 128 if bits == 128 else 64
+            bv = bv + [0] * (w - len(bv))
+            exp = [(("mbyte", i // 8), i % 8, False) for i in range(bits)] + [0] * (w - bits)
+            if bv[:w] != exp:
+                k = [i for i in range(w) if bv[i] != exp[i]][0]
+                bad = bad or "bit %d of the value is %s, expected %s" % (
+                    k, "bit %d of byte %d" % (bv[k][1], bv[k][0][1]) if isinstance(bv[k], tuple) and bv[k][0][0] == "mbyte" else bv[k],
+                    "bit %d of byte %d" % (k % 8, k // 8) if k < bits else 0)
         n += 1
         if bad:
             ck.violation("C08.le", inst, bad, where=where, what="typed reader disagrees with the byte store")
@@ -155,7 +166,7 @@ def little_endian(ctx):
             ck.ok("C08.le", inst)
         # ---- writer
         body = facts.bodies[R.mem_write[bits]]
-        I = A.Interp(facts, intercept=pr.intercept)
+        I = A.Interp(facts, intercept=icpt)
         DATA = A.W(("data",), 128 if bits == 128 else 64)
         outs = list(I.run(body, [P.self_ref(True), ADDR, DATA], A.Path()))
         inst = "api=mem_write_%d" % bits
@@ -172,11 +183,19 @@ def little_endian(ctx):
             if wr[0][2] != ADDR:
                 bad = bad or "writes at %s, not the caller's address" % A.show(wr[0][2])
             buf = wr[0][3]
-            names = term_calls(buf)
-            if bits > 8:
-                want = "core::num::<impl u%d>::to_le_bytes" % bits
-                if want not in names:
-                    bad = bad or "bytes not built with u%d::to_le_bytes (%s)" % (bits, sorted(names)[:3])
+            while buf[0] in ("deref", "w"):
+                buf = buf[1]
+            if not (buf[0] == "agg" and buf[1] == "array"):
+                bad = bad or "written bytes are not a byte tuple the analysis can read (%s)" % A.show(buf)[:50]
+                continue
+            if len(buf[3]) != bits // 8:
+                bad = bad or "writes %d bytes, expected %d" % (len(buf[3]), bits // 8)
+                continue
+            for i, x in enumerate(buf[3]):
+                xb = A.bitvec(x, o.path)[:8]
+                exp = [(("data",), 8 * i + k, False) for k in range(8)]
+                if xb != exp:
+                    bad = bad or "byte %d written is not bits %d..%d of the value" % (i, 8 * i, 8 * i + 7)
             if bits < 64:
                 if o.path.maxbits.get(("data",)) != bits and o.path.maxbits.get(DATA) != bits:
                     bad = bad or "no range guard data <= %#x" % ((1 << bits) - 1)
